@@ -129,7 +129,9 @@ Section Import.
         end
     | OArray e => IArray n (array_word types e)
     | OEnum => IEnum n
-    | OPrim ty fmt => let w := prim_word ty fmt in if is_builtin w then IAlias n w else IExt n
+    (* default arm: the table is asked directly (NOT typeNameFromSchemaRef: no special case for boolean), the
+       result kept only if it is a builtin type name, else `unknown scheme type` -> string alias *)
+    | OPrim ty fmt => let w := map_type ty fmt in if is_builtin w then IAlias n w else IExt n
     end.
 
   (* convertSpec: the loop over the definitions, then types.Sort *)
